@@ -143,6 +143,14 @@ let monitors : (string * (config -> n list -> n list option -> bool)) list = [
   ("C04", (fun _ _ r -> ok_C04 r));
   ("C05", ok_C05);
   ("C06", ok_C06);
+  ("C12", ok_C12);
+  ("C13udp", ok_C13_udp);
+]
+
+(* monitors that also need the reference connection state (first data segment of a TCP flow) *)
+let monitors_st : (string * (config -> ref_state -> n list -> n list option -> bool)) list = [
+  ("C07", ok_C07);
+  ("C13tcp", ok_C13_tcp);
 ]
 
 let () =
@@ -176,8 +184,9 @@ let () =
              List.iter (fun (name, m) ->
                if List.mem name wanted then
                  Printf.printf "V %s %d\n" name (if m !cfg frame ir then 1 else 0)) monitors;
-             if List.mem "C07" wanted then
-               Printf.printf "V C07 %d\n" (if ok_C07 !cfg !rst frame ir then 1 else 0)
+             List.iter (fun (name, m) ->
+               if List.mem name wanted then
+                 Printf.printf "V %s %d\n" name (if m !cfg !rst frame ir then 1 else 0)) monitors_st
            | None -> ());
           (* reference connection state (C07/C08/C09) advances on every frame *)
           rst := ref_step !cfg !rst frame;
